@@ -862,9 +862,13 @@ def run(ctx: core.Ctx):
     except Exception as ex:
         ctx.broken("T1:c13_facts", f"{type(ex).__name__}: {ex}")
         t1_ok = False
-        add_if_absent = True
-        flags = {}
-        ctx.gen("C13Facts", open(core.VERIF + "/translate/c13_facts_pinned.v").read())
+        pinned = open(core.VERIF + "/translate/c13_facts_pinned.v").read()
+        ctx.gen("C13Facts", pinned)
+        # the search continues with the facts of the pinned source (also for the shapes of the fixed findings)
+        w = re.search(r"mkCfg ((?:\w+ ?)+)\.", pinned).group(1).split()
+        add_if_absent = w[0] == "true"
+        flags = {"skip_own": w[7] == "true", "user_only": w[8] == "true",
+                 "tables_only": "cte_rename_tables_only : bool := true" in pinned}
     # ---- proofs
     ctx.log("T1 done")
     proved = ctx.prove([ctx.build + "/gen/C13Facts.v"] + ([core.COQ + "/props/C13.v"] if t1_ok else []), dep_theories=DEPS)
